@@ -19,6 +19,6 @@ ListsDef == { <<>>, <<1>>, <<2>>, <<3>>, <<1,3>>, <<3,1>>, <<1,2>>, <<4>>, <<5>>
 ListsSmall == { <<>>, <<1>>, <<2>>, <<3>>, <<1,3>>, <<3,1>>, <<1,2>>, <<4>>, <<6>> }
 ListsC01 == { <<>>, <<1>>, <<6>>, <<1,3>>, <<2>> }
 ListsC02 == { <<>>, <<1>>, <<2>>, <<3>>, <<1,3>>, <<3,1>>, <<1,2>>, <<4>>, <<5>> }
-ListsC09 == { <<>>, <<1>>, <<2>>, <<3>>, <<1,3>>, <<1,3,7>> }
+ListsC09 == { <<>>, <<1>>, <<2>>, <<1,3>> }
 BaseDef == << [v |-> 1000, h |-> 1], [v |-> 1000, h |-> 2] >>
 ====
